@@ -309,6 +309,10 @@ func e1RunWordInner(sc e1Scen, word []sym, scratch string, props map[string]bool
 	}
 	defer func() {
 		if !r.closed { // Close is not specified to be callable twice
+			if !r.mi.m.mutex.TryLock() {
+				return // (a panic inside the muxer left its mutex locked: Close would hang and hide the panic)
+			}
+			r.mi.m.mutex.Unlock()
 			r.mi.m.Close()
 		}
 	}()
@@ -377,6 +381,27 @@ func e1RunWordInner(sc e1Scen, word []sym, scratch string, props map[string]bool
 				}
 				r.faulted = true
 				break // the word ends with the failed Write (what later writes do is not this mode's subject)
+			}
+			continue
+		}
+		if sc.Mode == "firstfault" {
+			// environment fault: the first segment file of stream number FaultAt cannot be created (the streams before it
+			// have got theirs); the Write that creates the first segments fails, later ones find the obstacle gone
+			st := r.mi.m.streams[sc.FaultAt]
+			blocker := filepath.Join(dir, vSegmentPath(st.prefix, st.id, st.nextSegmentID, sc.Cfg.Variant != "mpegts"))
+			if i == 0 {
+				os.Mkdir(blocker, 0o755)
+			}
+			if !r.apply(ws.unit(s)) && !r.faulted {
+				os.Remove(blocker)
+				r.faulted = true
+				break // the word ends with the failed Write (a later Write panics on the half-created streams: not C07's subject)
+			}
+			if i == len(word)-1 {
+				os.Remove(blocker)
+				if !r.faulted {
+					r.add("ALL", "fault-not-hit", "the injected storage fault at the first segment of stream %d was not hit", sc.FaultAt)
+				}
 			}
 			continue
 		}
@@ -635,7 +660,7 @@ func e1Explore(c *vh.Ctx, sc e1Scen) {
 				}
 			}
 		}
-	case "long", "fault", "partfault", "paramfault":
+	case "long", "fault", "partfault", "paramfault", "firstfault":
 		word := make([]sym, sc.Len)
 		for i := range word {
 			word[i] = sc.Alpha[i%len(sc.Alpha)]
